@@ -165,6 +165,10 @@ impl Prop for C11 {
                     ctx.skip("dhw_den_noise");
                 }
             }
+            // (same noise rule: one of the two verdicts is "zero demand" and the demand is a residue)
+            (Err(a), Err(b)) if (a.to_string().contains("nula") != b.to_string().contains("nula")) && (e0.balance.needs.ACS.unwrap_or(0.0).abs() as f64) < 1e-3 * sc0.tot_energy => {
+                ctx.skip("dhw_den_noise");
+            }
             (Err(a), Err(b)) => {
                 // the message may name a system id picked in HashSet order: compare without digits
                 let strip = |s: String| s.chars().filter(|c| !c.is_ascii_digit() && *c != '-').collect::<String>();
